@@ -22,6 +22,7 @@ type BoundedUnit struct {
 	Harness   string // function name in a *_verif.go file (package-qualified path prefix + name)
 	QuickN    int
 	ThoroughN int
+	Tier      string // "" both, "quick" or "thorough" only
 	What      string
 }
 
@@ -232,6 +233,14 @@ func (cr *checkRun) runUnit(full string) {
 			}
 			continue
 		}
+		if con := cr.prog.Contracts[full]; con != nil && con.Sweep {
+			// partial ("sweep") contract: only the contract's own clauses are claimed, not the safety obligations
+			switch o.Kind {
+			case "post", "assert", "inv.init", "inv.keep", "step", "variant", "call.pre", "frame":
+			default:
+				continue
+			}
+		}
 		ue.Obligations++
 		cr.nObl++
 		cr.allNames = append(cr.allNames, o.Name)
@@ -303,6 +312,9 @@ func (cr *checkRun) handleFailure(full string, rep *FuncReport, o *Oblig) {
 }
 
 func (cr *checkRun) runBounded(b BoundedUnit) {
+	if b.Tier != "" && b.Tier != cr.tier {
+		return
+	}
 	n := b.QuickN
 	budget := 0 * time.Second
 	if cr.tier == "thorough" {
